@@ -126,7 +126,71 @@ def _c01(tier, seed):
              validate_runs=["H_string(250,258,1)", "H_popmessage_arbitrary(10)"], covers={"H_popmessage_arbitrary": ["accepted"]}),
     ]
 
+def _gen_schema(sdir):
+    import subprocess, os
+    out = os.path.join(sdir, "zz_schema_gen.go")
+    r = subprocess.run(["python3", os.path.join(os.path.dirname(os.path.abspath(__file__)), "genschema.py"), out, "/repo/schemes/api_121.tl", "/repo/schemes/mtproto.tl"], capture_output=True, text=True)
+    if r.returncode != 0:
+        raise SystemExit("genschema failed: " + r.stderr)
+    return [out]
+
+TL2_HARNESS = TL_HARNESS + ["harness/telegram/c02.go", "harness/telegram/c13.go"]
+N_DEFS = 1240
+
+
+def _c02(tier, seed):
+    q = tier == "quick"
+    runs = []
+    if q:
+        for k in range(24):
+            for pat in range(0, 12):
+                runs.append("H_C02_class(1,%d,%d,1,0)" % (k, pat))
+        for k in range(34):
+            for pat in (0, 1):
+                runs.append("H_C02_class(2,%d,%d,1,0)" % (k, pat))
+        for idx in _sample(seed + 1, N_STRUCTS, 120):
+            for pat in (0, 1, 2, 3):
+                runs.append("H_C02_wire(%d,%d,1,0)" % (idx, pat))
+        kern = ["H_string(0,9,1)", "H_string(250,258,1)", "H_string(65534,65537,0)", "H_string_too_large(0)", "H_string_too_large(1)"]
+    else:
+        for idx in range(N_STRUCTS):
+            for pat in range(0, 64):
+                runs.append("H_C02_wire(%d,%d,1,0)" % (idx, pat))
+            for variant in (1, 2):
+                runs.append("H_C02_wire(%d,1,2,%d)" % (idx, variant))
+        kern = ["H_string(%d,%d,1)" % (a, a + 7) for a in range(0, 272, 8)] + ["H_string(65534,65537,0)", "H_string(16777212,16777215,0)", "H_string_too_large(0)", "H_string_too_large(1)", "H_string_too_large(5)"]
+    return [
+        dict(name="wire", pkg="telegram", harness=TL2_HARNESS, pre=_gen_schema, overlay=TL_OVERLAY, native_overlay=TL_OVERLAY, runs=runs, solver="z3", walllimit=120, timeout=3000,
+             validate_runs=["H_C02_class(1,0,3,1,0)", "H_C02_class(2,1,0,1,0)", "H_C02_wire(%d,1,1,0)" % (seed % 1000), "H_C02_wire(%d,0,1,0)" % ((seed + 500) % 1000)]),
+        dict(name="strings", pkg="internal/encoding/tl", harness=["harness/tl/kernel.go"], runs=kern, solver="z3", procs=len(kern), timeout=1500, validate_runs=["H_string(250,258,1)"]),
+    ]
+
+
+def _c13(tier, seed):
+    runs = ["H_C13_registry()", "H_C13_wrappers()"] + ["H_C13_def(%d)" % k for k in range(N_DEFS)]
+    q = tier == "quick"
+    wire = []
+    for idx in (_sample(seed + 2, N_STRUCTS, 80) if q else range(N_STRUCTS)):
+        wire.append("H_C02_wire(%d,1,1,0)" % idx)
+        wire.append("H_C02_wire(%d,0,1,0)" % idx)
+    return [dict(name="schema", pkg="telegram", harness=TL2_HARNESS, pre=_gen_schema, overlay=TL_OVERLAY, native_overlay=TL_OVERLAY, runs=runs + wire, solver="z3", walllimit=120, timeout=3000,
+                 validate_runs=["H_C13_wrappers()", "H_C13_def(5)", "H_C13_def(900)"])]
+
 PROPS = {
+    "C02": dict(
+        jobs=_c02,
+        bounds={"quick": "as C01 quick, oracle = reference encoder driven by the schema text (regenerated from schemes/*.tl on every run): shared-bit constructors x 12 patterns, service objects, 120 seed-chosen constructors x 4 patterns; string headers for lengths 0..9, 250..258, 65534..65537, 2^24, 2^24+1",
+                "thorough": "all registered constructors x all single-member presence patterns, depth 2; strings 0..279, 2^24-4..2^24+5"},
+        outside="as C01; gzip_packed/msg_container (hand-written codecs); vectors longer than 2",
+        assumptions=["genschema.py (independent TL reader) and the reference encoder in harness/telegram/c02.go are the oracle", "pairing Go type <-> schema line is by constructor id (ids pinned by C13's ground obligations)"],
+    ),
+    "C13": dict(
+        jobs=_c13,
+        bounds={"quick": "all 1236 schema definitions (ground obligations: registered, CRC() = schema id = crc32(canonical line), field order/kind/flag bit/flags position); registry subset of schema; the 3 hand-written wrappers; byte-level agreement (C02 harness) for 80 seed-chosen constructors",
+                "thorough": "byte-level agreement for all constructors"},
+        outside="generated client methods end to end (argument positions and result kinds of the 343 methods): not encoded yet; a live server",
+        assumptions=["canonical-line rule as used by Telegram's own tooling (drop #id, flags.N?true parameters, bytes->string, <> and {} removed)", "msg_container's id is assigned rather than derived (documented exception)"],
+    ),
     "C01": dict(
         jobs=_c01,
         bounds={"quick": "all enum members; every constructor with a shared flag bit x presence patterns {none, all, only-j, all-but-j}; all MTProto service objects; 100 seed-chosen constructors x patterns {none, all, only first, only second}; leaves symbolic (int/long/double bits, bool, strings and byte strings of length 0..4, vectors of 0..2, int128/int256 with 0..2 leading zero bytes), nested objects depth 1 with the smallest implementer; strings: every length 0..9, 250..258, 65534..65537 (PutMessage/PopMessage kernels), 2^24 and 2^24+1",
